@@ -63,6 +63,11 @@ def null_error_bijection(result, expected_errors):
     return got == want, got, want
 
 
+def _short(x):
+    t = repr(x)
+    return t if len(t) < 300 else t[:300] + "..."
+
+
 def check(tier, seed):
     from py_gql import process_graphql_query
     from py_gql.exc import GraphQLSyntaxError, ResolverError
@@ -78,7 +83,8 @@ def check(tier, seed):
             run.violation(item[0], item[1], dict(w, **(item[2] if len(item) > 2 else {})), True)
 
     # --- 1. executions with failures placed everywhere -----------------------------------------------------------
-    ops = list(H.OPERATIONS)
+    # (two operations laid out over several lines with fields starting in column 1: positions at the very start of a line are positions like any other)
+    ops = list(H.OPERATIONS) + [("{\nme {\nname\nage\nn2: name\n}\ncount\npeople {\nname\n}\n}", {}), ("query Q {\r\n  me {\r\nname\r\n    age }\r\ncount }", {})]
     for query, variables in ops:
         name, worlds = H.worlds_for(schema, query, variables, with_boom=False, limit=None if tier == "thorough" else 14)
         for wname, world in worlds:
@@ -91,6 +97,22 @@ def check(tier, seed):
                     continue
                 nontrivial += 1
                 judge(got["result"].response(), query, "execution", w)
+                # the response lists every recorded error: as many entries, with the same paths, as the result holds errors
+                rp = sorted((tuple(e_.get("path")) for e_ in (got["result"].response().get("errors") or []) if e_.get("path") is not None), key=repr)
+                ep = sorted((tuple(e_.path) for e_ in got["result"].errors if getattr(e_, "path", None) is not None), key=repr)
+                if rp != ep:
+                    run.violation("response:one-error-per-failed-position", "the response lists errors at %r, the result holds errors at %r" % (rp, ep), w, True)
+                # a field error is located AT its field: the text at (line, column) starts with the response key its path ends with
+                qlines = query.replace("\r\n", "\n").split("\n") if "\r" not in query.replace("\r\n", "") else None
+                for e_ in (got["result"].response().get("errors") or []):
+                    keys = [k for k in e_.get("path") or [] if isinstance(k, str)]
+                    if not keys or not e_.get("locations") or qlines is None:
+                        continue
+                    for loc in e_["locations"]:
+                        ln, col = loc.get("line"), loc.get("column")
+                        if isinstance(ln, int) and isinstance(col, int) and 1 <= ln <= len(qlines) and not qlines[ln - 1][col - 1:].startswith(keys[-1]):
+                            run.violation("response:error-location-in-document", "the error at path %r is located at %d:%d, where the document reads %r, not the field %r"
+                                          % (e_["path"], ln, col, qlines[ln - 1][col - 1:col + 11], keys[-1]), dict(w, path=e_["path"], location=loc), True)
                 exp = H.reference(schema, query, variables, world, name)
                 if exp[0] == "result":
                     ok, g, wnt = null_error_bijection(got["result"], [(p, k, m, l, x) for p, k, m, l, x in exp[2]])
@@ -120,6 +142,51 @@ def check(tier, seed):
         w = {"query": "{ me { ratio } }", "world": "Float field resolves to %s" % label, "value": label}
         if got["outcome"] == "result":
             judge(got["result"].response(), "{ me { ratio } }", "execution", w)
+    # --- 1b. the three entry points: graphql_blocking and the asynchronous graphql answer every kind of request with the same well-formed response as
+    #         process_graphql_query does (failure at each stage, field errors, success; operation selection; variables)
+    import asyncio
+    from py_gql import graphql, graphql_blocking
+    from py_gql.execution import BlockingExecutor
+    entry_cases = [("{ me { name", {}, None, {}), ("{ nope }", {}, None, {}), ("query ($x: Int!) { me { lim(a: $x) } }", {}, None, {}),
+                   ("query ($x: Int!) { me { lim(a: $x) } }", {"x": "no"}, None, {}), ("query A { count } query B { me { name } }", {}, None, {}),
+                   ("query A { count } query B { me { name } }", {}, "B", {}), ("query A { count } query B { me { name } }", {}, "Nope", {}),
+                   ("{ me { name age } count }", {}, None, {("me", "name"): ("error", "E1", {"code": 1})}), ("{ me { name age } count }", {}, None, {("count",): ("null",)}),
+                   ("{ me { name age } people { name } count }", {}, None, {}), ("mutation { a(n: 1) d }", {}, None, {}), ("subscription { tick }", {}, None, {})]
+    for query, variables, opname, world in entry_cases:
+        w = {"query": query, "variables": variables, "operation_name": opname, "world": sorted(map(str, world))}
+        outs = {}
+        for label in ("process_graphql_query", "graphql_blocking", "graphql"):
+            n += 1
+            kw = dict(variables=variables, operation_name=opname, context=H.Ctx(world))
+            try:
+                if label == "process_graphql_query":
+                    res = process_graphql_query(H.make_schema(), query, executor_cls=BlockingExecutor, **kw)
+                elif label == "graphql_blocking":
+                    res = graphql_blocking(H.make_schema(), query, **kw)
+                else:
+                    loop = asyncio.new_event_loop()
+                    try:
+                        asyncio.set_event_loop(loop)
+                        res = loop.run_until_complete(asyncio.wait_for(graphql(H.make_schema(), query, **kw), 30))
+                    finally:
+                        try:
+                            loop.run_until_complete(loop.shutdown_default_executor())
+                        except Exception:
+                            pass
+                        asyncio.set_event_loop(None)
+                        loop.close()
+                outs[label] = ("response", res.response())
+            except Exception as e:
+                outs[label] = ("raised", "%s: %s" % (type(e).__name__, e))
+        base = outs["process_graphql_query"]
+        for label in ("graphql_blocking", "graphql"):
+            if outs[label][0] == "response":
+                nontrivial += 1
+                judge(outs[label][1], query, "entry-point", dict(w, entry_point=label))
+            if outs[label][0] != base[0] or (base[0] == "response" and json.dumps(outs[label][1], sort_keys=True, default=str) != json.dumps(base[1], sort_keys=True, default=str)):
+                run.violation("response:entry-points-agree", "%s answers %r, process_graphql_query %r" % (label, outs[label][1] if outs[label][0] == "raised" else
+                                                                                                     _short(outs[label][1]), base[1] if base[0] == "raised" else _short(base[1])),
+                              dict(w, entry_point=label), True)
     # --- 2. requests cut off anywhere, invalid documents, variable and operation-selection errors ----------------------
     texts = ['query Q($a: Int = 1) {\n  me { name @include(if: true) }\n  echo(s: "x\\u00e9\\n")\n}\n', '{ me {\r\n name\r age } }', '{ echo(s: """b\n l""") }']
     for t in texts:
